@@ -144,7 +144,10 @@ def runPre (env : Env) (c : Cfg) (i : Nat) : List Stage → Pre
 /-- the sink proper (no locking): `sink.write(message)` -/
 def rawWrite (env : Env) (c : Cfg) (i : Nat) (s : HState) : HState × Res :=
   match env.fault i c.id .write with
-  | some e => (s, .raised e)
+  | some e =>
+    -- a coroutine sink fails while scheduling its task (closed loop …): `AsyncSink.write` lets it out
+    -- unless the scheduling sits under its `except RuntimeError: return` (`Gen.asyncScheduleSwallows`)
+    if c.kind = .coroutine && Gen.asyncScheduleSwallows e then (s, .ok) else (s, .raised e)
   | none =>
     match c.kind with
     | .coroutine => (if env.loop i then { s with tasks := s.tasks ++ [i] } else s, .ok)
